@@ -51,7 +51,8 @@ def programs(seed, n, syms=gen.SYMS, kinds=("abelian", "fermionic"), tids=None):
                 steps.append({"op": "from_dense", "in": ["dn"], "out": [f"k{n_out}"], "args": a})
                 steps.append(rel("same", "C16.dense_roundtrip", "t", f"k{n_out}"))
         # an arbitrary dense array with interleaved, unsorted labels
-        shape = [rng.randint(1, 4) for _ in range(rank)]
+        # (axes long enough for one charge to sit at four or more irregularly spaced positions)
+        shape = [rng.randint(1, 4 if rank == 3 else 9) for _ in range(rank)]
         pool = gen.CHARGE_POOL[sym]
         lab = [[list(rng.choice(pool[:3])) for _ in range(d)] for d in shape]
         dd = {"kind": "dense", "shape": shape, "dtype": dtype, "fill": {"start": 1, "step": 1, "alt": True}}
